@@ -190,6 +190,9 @@ func (n *SimNet) SendMessage(ctx context.Context, to peer.ID, m datatransfer.Mes
 	if len(n.SendFail) > 0 {
 		fail, n.SendFail = n.SendFail[0], n.SendFail[1:]
 	}
+	if ctx.Err() != nil { // a real network refuses to send on a finished context
+		fail = true
+	}
 	n.Calls = append(n.Calls, NetCall{What: "send", To: PeerName(to), Msg: DescribeMsg(m), OK: !fail})
 	n.Raw = append(n.Raw, m)
 	cb := n.OnSend
